@@ -617,3 +617,29 @@ def report_signed_formats(prog, rep, rule, pred, floor):
     if not sites:
         rep.ok(rule, 'formats-unsigned', found='%d format strings, none signed' % nfmt)
     rep.floor(rule, 'struct format strings', nfmt, floor)
+
+
+def extcom_name_consistency(prog, rep, rule):
+    """BGP_EXT_COM_STR_DICT: within the AS-specific / IPv4-specific / 4-octet-AS-specific types (high octet 0, 1,
+    2) a name stands for one sub-type (low octet) and a sub-type has one name - 0x0203 and 0x0003 are the same
+    kind of community in two formats, 0x0202 and 0x0203 are different kinds."""
+    cm = prog.module(CONS_Q)
+    S = prog.fold(cm.assigns['BGP_EXT_COM_STR_DICT'], cm)
+    by_name, by_sub = {}, {}
+    for code, name in S.items():
+        if isinstance(code, int) and code >> 8 in (0, 1, 2):
+            by_name.setdefault(name, set()).add(code & 0xff)
+            by_sub.setdefault(code & 0xff, set()).add(name)
+    bad = [(n, subs) for n, subs in by_name.items() if len(subs) > 1] + \
+          [(sub, names) for sub, names in by_sub.items() if len(names) > 1]
+    line = cm.assign_lines.get('BGP_EXT_COM_STR_DICT')
+    if bad:
+        rep.bad(rule, 'extcom-names', file=cm.relpath, line=line,
+                found='BGP_EXT_COM_STR_DICT is inconsistent: %s - a community of one kind is rendered with the name of '
+                      'another kind' % '; '.join('%r <-> %s' % (a, sorted(map(str, b))) for a, b in bad[:2]),
+                expected='one name per sub-type across the three administrator formats', key='extcom-names')
+    else:
+        rep.ok(rule, 'extcom-names', file=cm.relpath, line=line,
+               found='%d sub-types, %d names' % (len(by_sub), len(by_name)))
+    rep.floor(rule, 'administrator-format codes', sum(len(v) for v in by_name.values()) and
+              len([c for c in S if isinstance(c, int) and c >> 8 in (0, 1, 2)]), 6)
